@@ -32,10 +32,13 @@ if demodir.rstrip("/") == "cmd/hidi":
     json.dump({"Replace": {os.path.join(wt, "internal/pkg/midi/driver/alsa/alsa.go"): "/verif/harness/alsa/alsa.go"}}, open(ovp, "w"))
     ovflag = "-overlay %s " % ovp
 runpat = "^(" + "|".join(tests) + ")$"
-rc0, o0 = sh("go test %s-vet=off -count=1 -run '%s' ./%s" % (ovflag, runpat, demodir), wt)
+# demos may need /sys/class/hidraw entries (LED loop): run them in a mount namespace with a tmpfs there  (NSWRAP)
+def nswrap(cmd):
+    return "unshare -m sh -c 'mount -t tmpfs tmpfs /sys/class/hidraw && %s'" % cmd.replace("'", "'\\''")
+rc0, o0 = sh(nswrap("go test %s-vet=off -count=1 -run '%s' ./%s" % (ovflag, runpat, demodir)), wt)
 # with the patch
 rca, oa = sh("git apply %s" % patch, wt)
-rc1, o1 = sh("go test %s-vet=off -count=1 -run '%s' ./%s" % (ovflag, runpat, demodir), wt)
+rc1, o1 = sh(nswrap("go test %s-vet=off -count=1 -run '%s' ./%s" % (ovflag, runpat, demodir)), wt)
 os.remove(dst)
 rcb, ob = sh("VERIF_REPO=%s /verif/tools/baseline.sh" % wt, wt)
 sh("git checkout -- . && git clean -fdq -e _out", wt)
